@@ -27,11 +27,11 @@ def K(tier):
 
 def RULE(tier):
     return ("for each of 5 memos x 4 zeroth-gram codes (plain/auth x sure) x {base64, base2} headers: EVERY gram size from the legal "
-            "minimum up to the first size that yields a single gram is rended by the real Memoer.rend (must return, within the size, "
+            "minimum up to the first size that yields a single gram (sizes at which rend fails do not end the range) is rended by the real Memoer.rend (must return, within the size, "
             "without exception or hang); for every size whose gram count is 1..%d the grams are delivered to a fresh real receiver in "
             "every permutation, every permutation with one duplicate inserted at every position, every permutation of every strict "
             "subset (nothing may be delivered), every order-preserving merge of every permutation with the grams of a second memo "
-            "(in order%s); requested sizes below the legal minimum (1, 2, half, minimum-45/-44/-2/-1) must be raised by the size setter to a size that rends and delivers; every such merge of every permutation of every non-empty strict subset (an incomplete first memo) with "
+            "(in order%s); requested sizes below the legal minimum (1, 2, half, minimum-45/-44/-2/-1) must be raised by the size setter to a size that rends and delivers, also when the sender was built for the other header encoding and switched afterwards (sizes around both minimums); every such merge of every permutation of every non-empty strict subset (an incomplete first memo) with "
             "the complete second memo, and every duplicate-carrying sequence followed or preceded by the complete second memo. Oracle: inbox == multiset of (text, source, vid) of the complete memos. A case is one delivered datagram "
             "sequence; all are distinct by construction." % (K(tier), " and reversed" if tier != "quick" else ""))
 
